@@ -191,3 +191,69 @@ def prim_paths(elem_rust, name, trait=None, rhs_rust=None):
     out.append('core::cmp::impls::<impl core::cmp::Ord for %s>::%s' % (w, name))
     out.append('core::cmp::Ord::%s|%s' % (name, w))
     return out
+
+
+# -------------------------------------------------------------------------------------------
+# "equal on non-NaN lanes, -0 == +0, NaN == NaN" canonicalisation used by C01 / C07
+
+def canon_float(t, memo=None):
+    """rewrites valid up to the equivalences the properties grant:
+       ite(flt(a,b), a, b) / fmin_nanprop / fmin  ->  fmin~(a,b)   (min on non-NaN lanes)
+       ite(flt(b,a), a, b) / ...                  ->  fmax~(a,b)
+       ite(fne(x,x), x, e)                        ->  ite(fne(x,x), NaN, e)   (NaN matches NaN)"""
+    if memo is None:
+        memo = {}
+    r = memo.get(t.id)
+    if r is not None:
+        return r
+    if t.op in ('atom', 'c', 'top', 'uninit', 'ptr'):
+        memo[t.id] = t
+        return t
+    args = [canon_float(a, memo) if isinstance(a, T) else a for a in t.args]
+    op = t.op
+    r = None
+    if op == 'ite':
+        c, a, b = args
+        if c.op == 'flt':
+            x, y = c.args
+            if a is x and b is y:
+                r = mk('fmin~', *sorted((x, y)))
+            elif a is y and b is x:
+                r = mk('fmax~', *sorted((x, y)))
+        elif c.op == 'not' and c.args[0].op == 'fle':
+            # !(x <= y) ? a : b   -- on non-NaN lanes this is  y < x ? a : b
+            x, y = c.args[0].args
+            if a is x and b is y:
+                r = mk('fmax~', *sorted((x, y)))
+            elif a is y and b is x:
+                r = mk('fmin~', *sorted((x, y)))
+        if r is None and c.op == 'fne' and c.args[0] is c.args[1] and a is c.args[0]:
+            sz = 4
+            r = ite(c, mk('NaN'), b)
+        if r is None and c.op == 'fne' and c.args[0] is c.args[1] and a.op == 'c':
+            try:
+                f = tm.f_of(a)
+                if f != f:
+                    r = ite(c, mk('NaN'), b)
+            except Exception:
+                pass
+    elif op == 'fle':
+        # on non-NaN lanes  a <= b  is  !(b < a)
+        r = tm.b_not(tm.f2('flt', args[1], args[0]))
+    elif op in ('fmin', 'fmin_nanprop'):
+        r = mk('fmin~', *sorted(args))
+    elif op in ('fmax', 'fmax_nanprop'):
+        r = mk('fmax~', *sorted(args))
+    if r is None:
+        r = tm.rebuild(op, args) if any(x is not y for x, y in zip(args, t.args)) else t
+    memo[t.id] = r
+    return r
+
+
+def flatten_aci(t, opname):
+    if t.op == opname:
+        s = set()
+        for a in t.args:
+            s |= flatten_aci(a, opname)
+        return s
+    return {t}
